@@ -21,6 +21,25 @@ func spikeScenario(blocks int) []string {
 	return ls
 }
 
+// negativeRecordScenario: validator 1 (house) accepts delegations; user 3 delegates 100; in the next period the operator
+// withdraws 195 of the 200 self tokens (re-basing the ({}, validator) record on SelfToken: 5), then - in ONE block - user 3
+// subtracts the 100 (pending total 5 - 100 = -95: unencodable) and the operator deposits 10 (its tx hash lives only in that record).
+func negativeRecordScenario() []string {
+	ls := []string{"W users=8 pool=100000000000000000000000 ver=5", "GV 0 1 2000000000000000000000 1", "GV 1 3 200000000000000000000 1", "B 0", "VU 1 1 0 0 1"}
+	for i := 0; i < 15; i++ {
+		ls = append(ls, "B 0")
+	}
+	ls = append(ls, "B 0", "DA 3 1 100000000000000000000")
+	for i := 0; i < 15; i++ {
+		ls = append(ls, "B 0")
+	}
+	ls = append(ls, "B 0", "VW 1 1 u5 195000000000000000000", "B 0", "DS 3 1 100000000000000000000", "VD 1 1 10000000000000000000")
+	for i := 0; i < 14; i++ {
+		ls = append(ls, "B 0")
+	}
+	return ls
+}
+
 func refundScenario() []string {
 	return []string{"W users=8 pool=100000000000000000000000 ver=5", "GV 0 1 2000000000000000000000 1", "GV 1 3 500000000000000000000 1",
 		"B 0", "K 1 0 00000000000000000000000000000000000000000000000000000000000000ff 0",
@@ -218,6 +237,27 @@ func run(c *vh.Ctx) error {
 	}
 	probe("F-C07a", mForced, spikeScenario(144))
 	probe("F-C07c", mRefund, refundScenario())
+	{
+		// F-C07e needs the chain to go on after the builder's StateDB recorded an error; the model does not describe that
+		// situation, so this probe is oracle-only
+		rr, err := execScenarioOpt(negativeRecordScenario(), true)
+		rep, what := false, "not reproduced"
+		if err != nil {
+			what = "probe could not run: " + err.Error()
+		} else {
+			for _, f := range checkRun(rr, nil) {
+				if f.matcher == mNegRec {
+					rep, what = true, f.what
+				} else if f.matcher == "" {
+					res.Fail(f.kind, "", "probe F-C07e: "+f.what, vh.WriteReplay(c.ReplayDir, "C07", "probe-F-C07e-"+f.class, c.Seed, []string{f.what, "run with the chain continuing after a builder state error"}, negativeRecordScenario()))
+				}
+			}
+		}
+		if len(what) > 300 {
+			what = what[:300]
+		}
+		res.Probes = append(res.Probes, vh.Probe{ID: "F-C07e", Reproduced: rep, What: what})
+	}
 	// ---- generated chains -----------------------------------------------------------------------
 	nChains := c.N(45, 450)
 	if c.Search {
@@ -318,12 +358,22 @@ func run(c *vh.Ctx) error {
 
 func replay(c *vh.Ctx, body, comments []string) (bool, string) {
 	setup()
-	_, fs, err := evalScenario(body, c.Driver)
+	rr, fs, err := evalScenario(body, c.Driver)
 	if err != nil {
 		return false, "scenario cannot be executed: " + err.Error()
 	}
 	if len(fs) == 0 {
-		return false, "no failure: total is constant at every block boundary and the model agrees"
+		judged := 0
+		for _, b := range rr.blocks {
+			if b.led != nil {
+				judged++
+			}
+		}
+		msg := fmt.Sprintf("no failure: total is constant at all %d block boundaries and the model agrees", judged)
+		if rr.stopErr != "" {
+			msg += "; chain stopped: " + rr.stopErr
+		}
+		return false, msg
 	}
 	var msgs []string
 	for _, f := range fs {
